@@ -4,13 +4,20 @@
    code: the decoded value (rendered by the same printer as the input), an encoder error,
    a decoder error or a panic.  Error messages are not compared (class only). *)
 From Coq Require Import String.
-From Eino Require Import Base.Util Base.Universe Model.Ser Model.SerCheckpoint Model.SerStore Model.SerCanon.
+From Eino Require Import Base.Util Base.Universe Model.Ser Model.SerCheckpoint Model.SerStore Model.SerCanon Model.SerStream.
 
 Inductive obs : Type := OOk (v : val) | OEncErr | ODecErr | OPanic.
 
 Inductive ccase : Type :=
 | Case (regx : registry) (env : senv) (wtc : bool) (v : val) (o : obs)
-| Probe (regx : registry) (k : string) (t : ty) (refused : bool).   (* a registration attempt *)
+| Probe (regx : registry) (k : string) (t : ty) (refused : bool)    (* a registration attempt *)
+(* a pending input that is a stream of the given chunks (of a node of output type any) taken through
+   convertCheckPoint, the store and restoreCheckPoint; resumed with streams or without.  Observed:
+   what the checkpoint held (0 nil, 1 the marker nilChunk, 2 a value) and what the successor is
+   handed (the chunks of the restored stream; without streams the one value) *)
+| Conv (s : list chunk) (resume_stream : bool) (held : N) (handed : list chunk)
+(* the same for a run without streams interrupted while the value c is the pending input *)
+| ConvV (c : chunk) (resume_stream : bool) (held : N) (handed : list chunk).
 
 Definition run_with (fx : fixes) (regx : registry) (env : senv) (v : val) : obs :=
   let reg := (builtin_registry ++ regx)%list in
@@ -54,11 +61,29 @@ Definition obs_eqb (a b : obs) : bool :=
 
 (* a case is bad if the model predicts another observation, or if the harness and the
    model disagree on whether the value belongs to the typed universe of the theorems *)
+Definition held_class (st : stored) : N :=
+  match st with SNil => 0 | SNilChunk => 1 | SVal _ => 2 end%N.
+Definition chunk_eqb (a b : chunk) : bool := opt_eqb val_equivb a b.
+Definition conv_bad (s : list chunk) (rs : bool) (held : N) (handed : list chunk) : bool :=
+  match convert concat_c true s with
+  | Ok st =>
+      negb (N.eqb (held_class st) held)
+      || negb (list_eqb chunk_eqb (if rs then restore_stream st else [restore_value st]) handed)
+  | _ => true
+  end.
+
+Definition convv_bad (c : chunk) (rs : bool) (held : N) (handed : list chunk) : bool :=
+  let st := convert_value true c in
+  negb (N.eqb (held_class st) held)
+  || negb (list_eqb chunk_eqb (if rs then restore_stream st else [restore_value st]) handed).
+
 Definition bad (c : ccase) : bool :=
   match c with
   | Case regx env wtc v o =>
       negb (obs_eqb (run_case regx env v) o) || negb (Bool.eqb (wt env v) wtc)
   | Probe regx k t refused =>
       negb (Bool.eqb (negb (is_ok (register (builtin_registry ++ regx)%list k t))) refused)
+  | Conv s rs held handed => conv_bad s rs held handed
+  | ConvV c rs held handed => convv_bad c rs held handed
   end.
 Definition mismatches (cs : list ccase) : list nat := mismatches_from bad 0 cs.
